@@ -100,7 +100,7 @@ plan('C08',
           'multi-byte encoding is exercised), byte strings over the boundary alphabet and random byte strings (hash = the bytes), blocks of 255 byte strings '
           'sharing a prefix in the exhaustive length<=3 enumeration (hash = the prefix; every string of the block is an evaluation), 16-bit unit sequences (hash = the units)',
      jobs=[
-         FuzzJob('fz_text', quick=150000, thorough=5000000, procs=(4, 12), max_len=256),
+         FuzzJob('fz_text', quick=150000, thorough=2000000, procs=(4, 12), max_len=256),
          # well-formed text: everything judged against the reference codec
          Job('c08_unicode', 'scalars', 'plain', quick=4352, thorough=4352, shards=(8, 8), params=_p(blk=256, step=1, dump=97), tparams=dict(dump=1)),
          # quick/asan: every 4th value (phase rotating with the block) plus everything within 2 of a boundary scalar; thorough/asan: all
